@@ -149,6 +149,7 @@ class TypeScriptDuplicateAnalyzer(BaseTokenAnalyzer):  # thailint: ignore[srp.vi
             return set()
 
         jsdoc_lines: set[int] = set()
+        self._source_lines = content.encode("utf-8").split(b"\n")
         self._collect_jsdoc_lines_recursive(root, jsdoc_lines)
         return jsdoc_lines
 
@@ -176,6 +177,12 @@ class TypeScriptDuplicateAnalyzer(BaseTokenAnalyzer):  # thailint: ignore[srp.vi
         """
         start_line = node.start_point[0] + 1
         end_line = node.end_point[0] + 1
+        # A line that also holds code (`x = f(y); /** note */`) stays a code line
+        lines = getattr(self, "_source_lines", [])
+        if start_line <= len(lines) and lines[start_line - 1][: node.start_point[1]].strip():
+            start_line += 1
+        if end_line <= len(lines) and lines[end_line - 1][node.end_point[1] :].strip():
+            end_line -= 1
         for line_num in range(start_line, end_line + 1):
             jsdoc_lines.add(line_num)
 
